@@ -168,6 +168,31 @@ def body_cusum_step(ctx, burn, direction, pre, since, older):
     _cusum_run(ctx, d, spec, ctx.real("x"))
 
 
+def body_cusum_reestimate_constant(ctx, burn, since):
+    """the update after an alarm when the last burn_in observations are all equal: the documented carry-over is
+    their mean and a standard deviation of exactly 0 (divisions by it are havoc'd: numpy gives inf/nan there)"""
+    from menelaus.change_detection import cusum as M
+
+    delta, thr = ctx.real("delta"), ctx.real("threshold")
+    old_t, old_sd = ctx.real("old_target"), ctx.real("old_sd")
+    ctx.assume(old_sd > 0)
+    d = M.CUSUM(target=old_t, sd_hat=old_sd, burn_in=burn, delta=delta, threshold=thr)
+    level = ctx.real("plateau")
+    stream = [ctx.real(f"old{i}") for i in range(since - burn)] + [level] * burn
+    d._stream = [np.array([[v]], dtype=object) for v in stream]
+    d._upper_bound = [0] + [ctx.real(f"uh{i}") for i in range(since)]
+    d._lower_bound = [0] + [ctx.real(f"ul{i}") for i in range(since)]
+    total = ctx.int("total")
+    ctx.assume(total >= since)
+    d._total_samples, d._samples_since_reset, d._drift_state = total, since, "drift"
+    with rebind(M, max=sym_max):
+        d.update(ctx.real("x"))
+    ctx.prove(ctx.eq(scalar(d.target), level), "cusum-target-reestimated-from-last-burn_in")
+    ctx.prove(ctx.eq(scalar(d.sd_hat), 0), "cusum-sd-reestimated-from-last-burn_in (zero for a constant window)")
+    ctx.prove(d.samples_since_reset == 1, "cusum-restarts")
+    ctx.witness("constant-window")
+
+
 def body_cusum_hist(ctx, burn, direction, N, target_given):
     from menelaus.change_detection import CUSUM
 
@@ -211,6 +236,10 @@ def jobs(tier):
                         out.append(Job(f"cusum-step-b{burn}-{direction}-{pre}-s{since}-o{older}",
                                        "checks.c04:body_cusum_step",
                                        {"burn": burn, "direction": direction, "pre": pre, "since": since, "older": older}))
+    for burn in (2, 3):
+        out.append(Job(f"cusum-reestimate-constant-b{burn}", "checks.c04:body_cusum_reestimate_constant",
+                       {"burn": burn, "since": burn + 1}, expect=("constant-window",),
+                       opts={"div_policy": "havoc_zero", "validate": 1}))
     for burn in (2, 3):
         for tg in (False, True):
             out.append(Job(f"cusum-hist-b{burn}-tg{int(tg)}", "checks.c04:body_cusum_hist",
